@@ -32,6 +32,7 @@ import (
 	"path"
 	"path/filepath"
 	"runtime"
+	"runtime/pprof"
 	"sort"
 	"strings"
 	"sync"
@@ -42,6 +43,7 @@ import (
 	"github.com/apache/arrow-go/v18/arrow/array"
 	"github.com/apache/arrow-go/v18/arrow/memory"
 	"github.com/apache/arrow-go/v18/parquet"
+	pqfile "github.com/apache/arrow-go/v18/parquet/file"
 	"github.com/apache/arrow-go/v18/parquet/pqarrow"
 	"github.com/basekick-labs/arc/internal/api"
 	"github.com/basekick-labs/arc/internal/auth"
@@ -233,11 +235,13 @@ func c32Places(mem *hx.MemBackend) (map[string]int, map[string]string, error) {
 			out[place] += 0
 			continue
 		}
-		rows, _, _, err := hx.ReadParquet(files[p])
+		// row count from the file's own footer, read with arrow-go's low-level reader (not Arc's code)
+		pf, err := pqfile.NewParquetReader(bytes.NewReader(files[p]))
 		if err != nil {
 			return nil, nil, fmt.Errorf("%s: %w", p, err)
 		}
-		out[place] += len(rows)
+		out[place] += int(pf.NumRows())
+		pf.Close()
 	}
 	return out, dirs, nil
 }
@@ -366,7 +370,7 @@ var c32EPs = []c32EP{
 // dimension domains (index 0.. ; tier decides how long the prefix in use is)
 var (
 	c32Names   = []string{"database", "_database", "measurement", "_measurement", "m"}
-	c32Vals    = []string{"db2", "m2", "../db2", "/db2/m2", "db1", "m1", "db2/m2", "../../db2/m2", "default"}
+	c32Vals    = []string{"db2", "m2", "../db2", "m1", "db1", "/db2/m2", "db2/m2", "../../db2/m2", "default"}
 	c32Hdr     = []string{"", "db1", "db2", "default", "db1/../db2"} // x-arc-database ("" = absent)
 	c32QDB     = []string{"", "db1", "db2"}
 	c32OrgV    = []string{"", "db2"}
@@ -888,6 +892,8 @@ func c32Exec(v c32Vec) *c32Res {
 	res.Legs[1], res.Legs[2] = map[string]int{}, map[string]int{}
 	if stored, _ := w.mem.Snapshot(); w.walW.untouched() && len(stored) == 0 {
 		// nothing buffered, logged or stored: the system is as new
+		res.Body, res.Legs[0], res.Legs[1], res.Legs[2] = "", nil, nil, nil
+		res.Dirs[0] = nil
 		select {
 		case c32Free <- w:
 		default:
@@ -944,7 +950,6 @@ type c32Fail struct {
 // measurement: the granted m1 / empty / other), so that minimisation cannot slide from one way of
 // landing in the wrong place to another.
 func c32Cat(named, place, dir string, inj c32Inj) string {
-	nc := strings.HasSuffix(place, " [non-canonical key]")
 	place = strings.TrimSuffix(place, " [non-canonical key]")
 	db, meas := place, ""
 	if i := strings.Index(place, "/"); i >= 0 {
@@ -961,6 +966,9 @@ func c32Cat(named, place, dir string, inj c32Inj) string {
 	default:
 		d = "other"
 	}
+	if d != "named" {
+		return "db:" + d // wrong database: where the measurement came from is secondary
+	}
 	switch {
 	case inj.Name != "" && strings.HasPrefix(dir+"/", db+"/"+inj.Val+"/"):
 		m = "value-of-the-routing-like-name"
@@ -971,11 +979,7 @@ func c32Cat(named, place, dir string, inj c32Inj) string {
 	default:
 		m = "other"
 	}
-	c := "db:" + d + ",measurement:" + m
-	if nc {
-		c += ",non-canonical-key"
-	}
-	return c
+	return "db:named,measurement:" + m
 }
 
 func c32Judge(v c32Vec, res *c32Res) []c32Fail {
@@ -998,7 +1002,11 @@ func c32Judge(v c32Vec, res *c32Res) []c32Fail {
 			if i := strings.Index(p, "/"); i >= 0 {
 				db = p[:i]
 			}
-			cat := c32Cat(named, p, res.Dirs[leg][p], v.Inj)
+			inj := v.Inj
+			if base != nil && base.Legs[leg][p] > 0 {
+				inj = c32Inj{} // the request stores rows there without the name too: the name did not choose the place
+			}
+			cat := c32Cat(named, p, res.Dirs[leg][p], inj)
 			switch {
 			case named == "" || db != named:
 				out = append(out, c32Fail{"stored-under-database-the-request-did-not-name", leg, p, cat})
@@ -1149,7 +1157,7 @@ func verifC32() {
 	run := ev.Start("C32", "exploration")
 	defer os.RemoveAll(c32Scratch)
 	os.MkdirAll(c32Scratch, 0o700)
-	tier := c32Tier{nVals: 6, nHdr: 3, nPrec: 2}
+	tier := c32Tier{nVals: 4, nHdr: 3, nPrec: 2}
 	if !run.Quick() {
 		tier = c32Tier{nVals: len(c32Vals), nHdr: len(c32Hdr), nPrec: len(c32PrecV)}
 	}
@@ -1157,6 +1165,11 @@ func verifC32() {
 		c32Probe(pr)
 		os.RemoveAll(c32Scratch)
 		os.Exit(0)
+	}
+	if pf := os.Getenv("C32_PROF"); pf != "" {
+		f, _ := os.Create(pf)
+		pprof.StartCPUProfile(f)
+		defer pprof.StopCPUProfile()
 	}
 	cases := c32Enumerate(tier)
 	if run.Seed != 0 { // the seed only permutes the order in which the (whole) space is visited
@@ -1266,14 +1279,25 @@ func verifC32() {
 
 	run.Coverage["evaluations"] = evals.Load()
 	run.Coverage["distinct_nontrivial"] = nontrivial.Load()
+	ab := func(l []string) string { // "" is "absent" in the header / query domains
+		o := make([]string, len(l))
+		for i, x := range l {
+			o[i] = x
+			if x == "" {
+				o[i] = "<absent>"
+			}
+		}
+		return strings.Join(o, ",")
+	}
 	run.Coverage["rule"] = fmt.Sprintf("full product, per endpoint (%d endpoints: msgpack, 3 line-protocol, import lp/csv/parquet, tle write/import), of payload template "+
-		"(msgpack: single typed-columnar / generic-columnar / row for m1 and m2, batch[...] and top-level array[...] of 9 item lists mixing columnar/row and allowed m1 / forbidden m2; "+
-		"line protocol: lines for [m1] [m1,m1] [m1,m2] [m2,m1] [m2]; csv, parquet, tle: one file) x routing-like name {none} + {%s} x position the template offers "+
-		"(column / tag / field / extra key inside the item (for m: a duplicate key, before and after the genuine one) / extra key on the batch wrapper / extra multipart form field) x value {%s} "+
-		"x x-arc-database {%s} x db|bucket {absent,db1,db2} x org {absent,db2} x precision {%s} x measurement selector (query measurement / x-arc-measurement) {absent,m1,m2}, "+
-		"each only where the endpoint reads it; every case = 1 request on a fresh writer + its replication entries applied on a fresh reader + its WAL recovered on a fresh node; "+
-		"non-trivial = carries a routing-like name or differs from the plain 'x-arc-database: db1, measurement m1' request of its endpoint (each vector is distinct by construction)",
-		len(c32EPs), strings.Join(c32Names, ","), strings.Join(c32Vals[:tier.nVals], ","), strings.Join(c32Hdr[:tier.nHdr], ","), strings.Join(c32PrecV[:tier.nPrec], ","))
+		"(msgpack, %d templates: single typed-columnar / generic-columnar / row item for measurement m1, m2 and the empty string, batch[...] and top-level array[...] of 11 item lists mixing "+
+		"columnar/row items and allowed m1 / forbidden m2 / empty measurement; line protocol, %d templates: lines for [m1] [m1,m1] [m1,m2] [m2,m1] [m2] [\"\"] [m1,\"\"]; csv, parquet, tle: one file) "+
+		"x routing-like name {none} + {%s} x every position the template offers (column / tag / field / extra key inside the item (for m: a duplicate key, before and after the genuine one) / "+
+		"extra key on the batch wrapper / extra multipart form field) x value {%s} x x-arc-database {%s} x db|bucket {<absent>,db1,db2} x org {<absent>,db2} x precision {%s} x "+
+		"measurement selector (query measurement / x-arc-measurement) {<absent>,m1,m2}, each dimension only where the endpoint reads it; every case = 1 request on a writer node that has "+
+		"buffered/logged/stored nothing yet + its replication entries applied on a fresh reader + its WAL recovered on a fresh node; non-trivial = carries a routing-like name or differs "+
+		"from the plain 'x-arc-database: db1, measurement m1' request of its endpoint (every vector is distinct by construction)",
+		len(c32EPs), len(c32MPTs), len(c32LPTs), strings.Join(c32Names, ","), strings.Join(c32Vals[:tier.nVals], ","), ab(c32Hdr[:tier.nHdr]), ab(c32PrecV[:tier.nPrec]))
 	run.Coverage["samples"] = samples.List()
 	run.Coverage["exhaustive"] = complete.Load()
 	run.Coverage["space_size"] = len(cases)
@@ -1293,6 +1317,7 @@ func verifC32() {
 	run.Assume("rows that a routing-like name makes DISAPPEAR (dropped column or row) are not a redirection; they are counted (info_...) and left to C05/C02")
 	run.Assume("storage backend is the in-memory hx.MemBackend; key containment on real backends is C08's subject")
 	os.RemoveAll(c32Scratch)
+	pprof.StopCPUProfile()
 	run.Finish()
 }
 
